@@ -1,4 +1,5 @@
 import CfdpVerif.Props.C07
+import CfdpVerif.Props.C09
 import CfdpVerif.Props.C17
 /-!
 # C02 — every transfer over a fault-free link completes successfully
@@ -20,8 +21,17 @@ retained) and waits; the sender's ACK (Finished) ends the transaction: idle, fil
 indication, no fault, no exception.  The sender's half of the closing handshake is
 `C02_source_eof_acked`, `C02_source_finished`, `C02_source_completion`; its PDU stream is C07.
 
-NOT covered by a theorem: unacknowledged mode with closure requested (one more forward lemma of the
-same kind), the composition of the two handlers into one run, and arbitrary fair pacing (several
+`C02_unack_closure_delivery`: unacknowledged mode with closure requested — as the first theorem, and
+exactly one Finished PDU (No error, Data complete, File retained) is queued for the sender.
+
+`C02_end_to_end_unack`: **both models composed** (unacknowledged mode without closure): the sender
+model is called and drained `k + 2` times, every PDU it emits is handed to the receiver model in
+order; both end idle, the destination file is byte-identical to the source file, no call of either
+handler raised, no fault callback on either side.  Uses C07 (the stream), C09 (the checksum does not
+depend on the chunk length: the sender computes it with its segment length, the receiver with 4096)
+and C17 (filestore).
+
+NOT covered by a theorem: the composed run in acknowledged mode (each half is proved) and arbitrary fair pacing (several
 PDUs queued before a `state_machine` call); these are explored end to end on implementation and
 model (randomised pacing over the whole configuration cross product), see MANIFEST / evidence.
 -/
@@ -41,7 +51,8 @@ structure Admissible (env : Env) (rc : RemoteCfg) (h : Hdr) : Prop where
 
 /-- receiver in the middle of an unacknowledged file transfer: stored content `P`, nothing queued,
 no fault so far -/
-structure Receiving (d : DestSt) (dst : String) (P : List UInt8) (rc : RemoteCfg) (t : Tid) (cks : Nat) : Prop where
+structure Receiving (d : DestSt) (dst : String) (P : List UInt8) (rc : RemoteCfg) (t : Tid) (cks : Nat)
+    (cl : Bool := false) : Prop where
   hbusy : d.state = .busy
   hstep : d.step = .RECEIVING_FILE_DATA
   hready : d.numReady = 0
@@ -55,7 +66,7 @@ structure Receiving (d : DestSt) (dst : String) (P : List UInt8) (rc : RemoteCfg
   htid : d.p.tid = some t
   hrej : d.rejects = []
   hcks : d.p.cksType = cks
-  hclosure : d.p.closure = false
+  hclosure : d.p.closure = cl
   hcancel : d.p.canceled = false
   hmo : d.p.metadataOnly = false
   hflts : d.flts = []
@@ -70,9 +81,9 @@ def afterTile (d : DestSt) (dst : String) (P data : List UInt8) (env : Env) (t :
 /-- **One tile.**  A File Data PDU at the current end of the stored content appends its payload:
 the destination file becomes `P ++ data`; nothing is queued, no fault. -/
 theorem C02_tile (env : Env) (d : DestSt) (dst : String) (P data : List UInt8) (rc : RemoteCfg) (t : Tid)
-    (cks : Nat) (h : Hdr) (hr : Receiving d dst P rc t cks) (ha : Admissible env rc h) (hd : data ≠ []) :
+    (cks : Nat) (h : Hdr) (cl : Bool) (hr : Receiving d dst P rc t cks cl) (ha : Admissible env rc h) (hd : data ≠ []) :
     stateMachine env (some (.fd h P.length data)) d = .ok () (afterTile d dst P data env t) ∧
-    Receiving (afterTile d dst P data env t) dst (P ++ data) rc t cks := by
+    Receiving (afterTile d dst P data env t) dst (P ++ data) rc t cks cl := by
   have hw : Fs.writeBytes P data P.length = P ++ data := by
     have : data.isEmpty = false := by cases data <;> simp_all
     simp [Fs.writeBytes, this]
@@ -93,31 +104,31 @@ theorem C02_tile (env : Env) (d : DestSt) (dst : String) (P data : List UInt8) (
             hfin := hr.hfin }
 
 /-- parameter block after the Metadata PDU -/
-def mdParams (h : Hdr) (rc : RemoteCfg) (cks size : Nat) (dname : String) : Params :=
+def mdParams (h : Hdr) (rc : RemoteCfg) (cks size : Nat) (dname : String) (cl : Bool := false) : Params :=
   { conf := ⟨.toSend, h.mode, h.crc, h.large, h.src, h.dst, h.seq⟩, tid := some ⟨h.src, h.seq⟩,
-    remoteCfg := some rc, cksType := cks, closure := false, fileName := dname, fileSize := some size,
+    remoteCfg := some rc, cksType := cks, closure := cl, fileName := dname, fileSize := some size,
     fin := ⟨ccNoError, dcIncomplete, fsRetained, none⟩ }
 
 /-- state after the Metadata PDU -/
 def afterMd (env : Env) (d : DestSt) (h : Hdr) (rc : RemoteCfg) (cks size : Nat) (sname dname : String)
-    (msgs : Option (List Msg)) : DestSt :=
+    (msgs : Option (List Msg)) (cl : Bool := false) : DestSt :=
   { d with state := .busy, step := .RECEIVING_FILE_DATA, fs := d.fs.set dname (.file []),
-           p := mdParams h rc cks size dname,
+           p := mdParams h rc cks size dname cl,
            inds := d.inds ++ [.mdRecv (some ⟨h.src, h.seq⟩) h.src (some size) (some sname) (some dname) msgs] }
 
 /-- **Metadata.**  An idle receiver that gets the Metadata PDU of an unacknowledged transfer without
 closure creates (or truncates) the destination file — given as a file path whose parent exists —
 and is ready to receive, with an empty file. -/
 theorem C02_metadata (env : Env) (d : DestSt) (h : Hdr) (rc : RemoteCfg) (cks size : Nat)
-    (sname dname : String) (msgs : Option (List Msg)) (ha : Admissible env rc h)
+    (sname dname : String) (msgs : Option (List Msg)) (cl : Bool) (ha : Admissible env rc h)
     (hidle : d.state = .idle) (hq : d.queue = []) (hr : d.numReady = 0) (hrej : d.rejects = [])
     (hfl : d.flts = [])
     (hnd : Fs.isDir d.fs dname = false)
     (hok : (∃ old, d.fs.get dname = some (.file old)) ∨
            (Fs.exists' d.fs dname = false ∧ Fs.parentIsDir d.fs dname = true)) :
-    stateMachine env (some (.md h false cks size (some sname) (some dname) msgs)) d =
-      .ok () (afterMd env d h rc cks size sname dname msgs) ∧
-    Receiving (afterMd env d h rc cks size sname dname msgs) dname [] rc ⟨h.src, h.seq⟩ cks := by
+    stateMachine env (some (.md h cl cks size (some sname) (some dname) msgs)) d =
+      .ok () (afterMd env d h rc cks size sname dname msgs cl) ∧
+    Receiving (afterMd env d h rc cks size sname dname msgs cl) dname [] rc ⟨h.src, h.seq⟩ cks cl := by
   constructor
   · rcases hok with ⟨old, hf⟩ | ⟨h1, h2⟩
     · have hex : Fs.exists' d.fs dname = true := by simp [Fs.exists', hf]
@@ -190,6 +201,56 @@ theorem C02_eof (env : Env) (d : DestSt) (dst : String) (P crc : List UInt8) (rc
         hr.hcancel, hf, hr.hclosure, resetInternal, fsmFromSendingFinishedPdu, fsmFromWaitingForFinishedAck,
         afterEof, hr.hfin, ccNoError, dtEof]
 
+/-- state after the EOF PDU of a complete transfer with closure requested: the Finished PDU is queued -/
+def afterEofClosure (env : Env) (d : DestSt) (t : Tid) : DestSt :=
+  { d with state := .idle, step := .IDLE, p := {},
+           queue := [mkFin d.p.conf ⟨ccNoError, dcComplete, fsRetained, none⟩], numReady := 1,
+           inds := d.inds ++ (if env.cfg.indEofRecv then [.eofRecv t] else []) ++
+             (if env.cfg.indFinished
+               then [.finished (some t) ⟨ccNoError, dcComplete, fsRetained, none⟩] else []) }
+
+/-- **EOF, closure requested (unacknowledged mode).**  As `C02_eof`, and exactly one Finished PDU
+(No error, Data complete, File retained) is queued for the sender; the handler is idle -/
+theorem C02_eof_closure (env : Env) (d : DestSt) (dst : String) (P crc : List UInt8) (rc : RemoteCfg) (t : Tid)
+    (cks : Nat) (h : Hdr) (hr : Receiving d dst P rc t cks true) (ha : Admissible env rc h)
+    (hver : cks = 15 ∨ Fs.calcChecksum d.fs (Checksum.CksType.ofNat cks) dst P.length 4096 = .ok crc) :
+    stateMachine env (some (.eof h ccNoError crc P.length none)) d = .ok () (afterEofClosure env d t) := by
+  have hnlt : ¬ P.length < P.length := by omega
+  rcases hver with hnull | hc
+  · cases hi : env.cfg.indEofRecv <;> cases hf : env.cfg.indFinished <;>
+    msimp [stateMachine, stateMachineWith, checkInsertedPacket, Pdu.hdr, ha.hdir, ha.hdst, ha.hsrc, Pdu.kind,
+      Route.getPacketDestination, hr.hbusy, transmissionMode, hr.hmode, nonIdleFsm,
+      fsmAdvancementAfterPacketsWereSent, hr.hqueue, hr.hstep, fsmFromReceiving, handleFdOrEofPdu, handleEofPdu,
+      modP, hi, getP, hr.htid, emitInd, handleNoErrorEof, hr.hprog, hnlt, noErrorEofVerify, checksumVerify,
+      hr.hcks, hnull, markComplete, fileTransferCompleteTransition, fsmFromWaitingForMetadata, fsmFromCheckLimit,
+      fsmFromWaitingForMissingData, fsmFromTransferCompletion, handleTransferCompletion, noticeOfCompletion,
+      hr.hcancel, hf, hr.hclosure, resetInternal, fsmFromSendingFinishedPdu, hr.hready, prepareFinishedPdu,
+      addPacket, handleFinishedPduSent, fsmFromWaitingForFinishedAck,
+      afterEofClosure, hr.hfin, ccNoError, dtEof]
+  · by_cases hnull : cks = 15
+    · subst hnull
+      cases hi : env.cfg.indEofRecv <;> cases hf : env.cfg.indFinished <;>
+      msimp [stateMachine, stateMachineWith, checkInsertedPacket, Pdu.hdr, ha.hdir, ha.hdst, ha.hsrc, Pdu.kind,
+        Route.getPacketDestination, hr.hbusy, transmissionMode, hr.hmode, nonIdleFsm,
+        fsmAdvancementAfterPacketsWereSent, hr.hqueue, hr.hstep, fsmFromReceiving, handleFdOrEofPdu, handleEofPdu,
+        modP, hi, getP, hr.htid, emitInd, handleNoErrorEof, hr.hprog, hnlt, noErrorEofVerify, checksumVerify,
+        hr.hcks, markComplete, fileTransferCompleteTransition, fsmFromWaitingForMetadata, fsmFromCheckLimit,
+        fsmFromWaitingForMissingData, fsmFromTransferCompletion, handleTransferCompletion, noticeOfCompletion,
+        hr.hcancel, hf, hr.hclosure, resetInternal, fsmFromSendingFinishedPdu, hr.hready, prepareFinishedPdu,
+        addPacket, handleFinishedPduSent, fsmFromWaitingForFinishedAck,
+        afterEofClosure, hr.hfin, ccNoError, dtEof]
+    · cases hi : env.cfg.indEofRecv <;> cases hf : env.cfg.indFinished <;>
+      msimp [stateMachine, stateMachineWith, checkInsertedPacket, Pdu.hdr, ha.hdir, ha.hdst, ha.hsrc, Pdu.kind,
+        Route.getPacketDestination, hr.hbusy, transmissionMode, hr.hmode, nonIdleFsm,
+        fsmAdvancementAfterPacketsWereSent, hr.hqueue, hr.hstep, fsmFromReceiving, handleFdOrEofPdu, handleEofPdu,
+        modP, hi, getP, hr.htid, emitInd, handleNoErrorEof, hr.hprog, hnlt, noErrorEofVerify, checksumVerify,
+        hr.hcks, hnull, hr.hmo, hr.hname, hc, markComplete, fileTransferCompleteTransition,
+        fsmFromWaitingForMetadata, fsmFromCheckLimit,
+        fsmFromWaitingForMissingData, fsmFromTransferCompletion, handleTransferCompletion, noticeOfCompletion,
+        hr.hcancel, hf, hr.hclosure, resetInternal, fsmFromSendingFinishedPdu, hr.hready, prepareFinishedPdu,
+        addPacket, handleFinishedPduSent, fsmFromWaitingForFinishedAck,
+        afterEofClosure, hr.hfin, ccNoError, dtEof]
+
 def isFinished : Ind → Bool
   | .finished .. => true
   | _ => false
@@ -205,22 +266,22 @@ def feed (env : Env) (h : Hdr) : List (List UInt8) → Nat → DestSt → Option
 /-- **All tiles, by induction.**  Feeding any list of non-empty payloads in order, each at the offset
 where the previous one ended (which is what the sender's tiles are, `C07_stream_tiles`), never
 raises and leaves the receiver with exactly their concatenation appended to the stored content. -/
-theorem C02_tiles (env : Env) (h : Hdr) (rc : RemoteCfg) (t : Tid) (cks : Nat) (dst : String)
+theorem C02_tiles (env : Env) (h : Hdr) (rc : RemoteCfg) (t : Tid) (cks : Nat) (dst : String) (cl : Bool)
     (ha : Admissible env rc h) :
     ∀ (cs : List (List UInt8)) (P : List UInt8) (d : DestSt), (∀ c ∈ cs, c ≠ []) →
-      Receiving d dst P rc t cks →
-      ∃ d', feed env h cs P.length d = some d' ∧ Receiving d' dst (P ++ cs.flatten) rc t cks ∧
+      Receiving d dst P rc t cks cl →
+      ∃ d', feed env h cs P.length d = some d' ∧ Receiving d' dst (P ++ cs.flatten) rc t cks cl ∧
         (∀ q, q ≠ dst → d'.fs.get q = d.fs.get q) ∧ d'.queue = [] ∧ d'.flts = [] ∧
-        d'.inds.filter isFinished = d.inds.filter isFinished := by
+        d'.inds.filter isFinished = d.inds.filter isFinished ∧ d'.p.conf = d.p.conf := by
   intro cs
   induction cs with
-  | nil => intro P d _ hr; exact ⟨d, rfl, by simpa using hr, fun _ _ => rfl, hr.hqueue, hr.hflts, rfl⟩
+  | nil => intro P d _ hr; exact ⟨d, rfl, by simpa using hr, fun _ _ => rfl, hr.hqueue, hr.hflts, rfl, rfl⟩
   | cons c cs ih =>
     intro P d hne hr
     have hc : c ≠ [] := hne c (by simp)
-    obtain ⟨hcall, hr'⟩ := C02_tile env d dst P c rc t cks h hr ha hc
-    obtain ⟨d', hf, hR, hother, hq, hfl, hfin⟩ := ih (P ++ c) _ (fun x hx => hne x (by simp [hx])) hr'
-    refine ⟨d', ?_, ?_, ?_, hq, hfl, ?_⟩
+    obtain ⟨hcall, hr'⟩ := C02_tile env d dst P c rc t cks h cl hr ha hc
+    obtain ⟨d', hf, hR, hother, hq, hfl, hfin, hcf⟩ := ih (P ++ c) _ (fun x hx => hne x (by simp [hx])) hr'
+    refine ⟨d', ?_, ?_, ?_, hq, hfl, ?_, by rw [hcf]; rfl⟩
     · simp only [feed, hcall]
       simpa using hf
     · simpa [List.append_assoc] using hR
@@ -259,8 +320,8 @@ theorem C02_unack_delivery (env : Env) (d0 : DestSt) (h : Hdr) (rc : RemoteCfg) 
       d3.inds.filter isFinished = d0.inds.filter isFinished ++
         (if env.cfg.indFinished
           then [.finished (some ⟨h.src, h.seq⟩) ⟨ccNoError, dcComplete, fsRetained, none⟩] else []) := by
-  obtain ⟨hmd, hR1⟩ := C02_metadata env d0 h rc cks F.length sname dname msgs ha hidle hq hr hrej hfl hnd hok
-  obtain ⟨d2, hfeed, hR2, hother, hq2, hfl2, hfin2⟩ := C02_tiles env h rc _ cks dname ha cs [] _ hne hR1
+  obtain ⟨hmd, hR1⟩ := C02_metadata env d0 h rc cks F.length sname dname msgs false ha hidle hq hr hrej hfl hnd hok
+  obtain ⟨d2, hfeed, hR2, hother, hq2, hfl2, hfin2, _⟩ := C02_tiles env h rc _ cks dname false ha cs [] _ hne hR1
   simp only [List.nil_append, hcs, List.length_nil] at hfeed hR2
   have hver : cks = 15 ∨ Fs.calcChecksum d2.fs (Checksum.CksType.ofNat cks) dname F.length 4096 = .ok crc := by
     rcases hcrc with h1 | h1
@@ -277,6 +338,50 @@ theorem C02_unack_delivery (env : Env) (d0 : DestSt) (h : Hdr) (rc : RemoteCfg) 
     simp [afterMd, Fs.C17.get_set_other _ _ _ _ hq']
   · simp only [afterEof, List.filter_append, hfin2]
     have h1 : (afterMd env d0 h rc cks F.length sname dname msgs).inds.filter isFinished =
+        d0.inds.filter isFinished := by simp [afterMd, isFinished]
+    rw [h1]
+    cases env.cfg.indEofRecv <;> cases env.cfg.indFinished <;> simp [isFinished]
+
+/-- **Delivery over a fault-free link, unacknowledged mode with closure requested.**  As
+`C02_unack_delivery`; in addition exactly one Finished PDU (No error, Data complete, File retained)
+is queued for the sender when the EOF completes the transfer. -/
+theorem C02_unack_closure_delivery (env : Env) (d0 : DestSt) (h : Hdr) (rc : RemoteCfg) (cks : Nat)
+    (sname dname : String) (msgs : Option (List Msg)) (F crc : List UInt8) (cs : List (List UInt8))
+    (ha : Admissible env rc h)
+    (hidle : d0.state = .idle) (hq : d0.queue = []) (hr : d0.numReady = 0) (hrej : d0.rejects = [])
+    (hfl : d0.flts = []) (hnd : Fs.isDir d0.fs dname = false)
+    (hok : (∃ old, d0.fs.get dname = some (.file old)) ∨
+           (Fs.exists' d0.fs dname = false ∧ Fs.parentIsDir d0.fs dname = true))
+    (hcs : cs.flatten = F) (hne : ∀ c ∈ cs, c ≠ [])
+    (hcrc : cks = 15 ∨ ∀ fs : Fs, fs.get dname = some (.file F) →
+      Fs.calcChecksum fs (Checksum.CksType.ofNat cks) dname F.length 4096 = .ok crc) :
+    ∃ d1 d2 d3,
+      stateMachine env (some (.md h true cks F.length (some sname) (some dname) msgs)) d0 = .ok () d1 ∧
+      feed env h cs 0 d1 = some d2 ∧
+      stateMachine env (some (.eof h ccNoError crc F.length none)) d2 = .ok () d3 ∧
+      d3.state = .idle ∧ d3.queue = [mkFin d1.p.conf ⟨ccNoError, dcComplete, fsRetained, none⟩] ∧ d3.flts = [] ∧
+      d3.fs.get dname = some (.file F) ∧ (∀ q, q ≠ dname → d3.fs.get q = d0.fs.get q) ∧
+      d3.inds.filter isFinished = d0.inds.filter isFinished ++
+        (if env.cfg.indFinished
+          then [.finished (some ⟨h.src, h.seq⟩) ⟨ccNoError, dcComplete, fsRetained, none⟩] else []) := by
+  obtain ⟨hmd, hR1⟩ := C02_metadata env d0 h rc cks F.length sname dname msgs true ha hidle hq hr hrej hfl hnd hok
+  obtain ⟨d2, hfeed, hR2, hother, hq2, hfl2, hfin2, hconf2⟩ := C02_tiles env h rc _ cks dname true ha cs [] _ hne hR1
+  simp only [List.nil_append, hcs, List.length_nil] at hfeed hR2
+  have hver : cks = 15 ∨ Fs.calcChecksum d2.fs (Checksum.CksType.ofNat cks) dname F.length 4096 = .ok crc := by
+    rcases hcrc with h1 | h1
+    · exact Or.inl h1
+    · exact Or.inr (h1 d2.fs hR2.hfile)
+  have heof := C02_eof_closure env d2 dname F crc rc _ cks h hR2 ha hver
+  refine ⟨_, d2, _, hmd, hfeed, heof, rfl, ?_, ?_, ?_, ?_, ?_⟩
+  · simp [afterEofClosure, hconf2]
+  · simp [afterEofClosure, hfl2]
+  · simp [afterEofClosure, hR2.hfile]
+  · intro q hq'
+    simp only [afterEofClosure]
+    rw [hother q hq']
+    simp [afterMd, Fs.C17.get_set_other _ _ _ _ hq']
+  · simp only [afterEofClosure, List.filter_append, hfin2]
+    have h1 : (afterMd env d0 h rc cks F.length sname dname msgs true).inds.filter isFinished =
         d0.inds.filter isFinished := by simp [afterMd, isFinished]
     rw [h1]
     cases env.cfg.indEofRecv <;> cases env.cfg.indFinished <;> simp [isFinished]
@@ -675,5 +780,239 @@ theorem C02_source_completion (env : Source.Env) (s : Source.SrcSt) (fp : Finish
     Source.fsmFromSendingFileData, Source.fsmFromSendingEof, Source.fsmFromWaitingForEofAck,
     Source.fsmFromWaitingForFinished, Source.fsmFromNoticeOfCompletion, Source.noticeOfCompletion, hi,
     Source.getP, htid, hfp, Source.modP, Source.emitInd, Source.resetInternal]
+
+/-! ## The two models composed: one run over a fault-free link -/
+
+/-- hand a list of PDUs to the receiver, one `state_machine` call each; `none` = a call raised -/
+def feedPdus (env : Dest.Env) : List Pdu → Dest.DestSt → Option Dest.DestSt
+  | [], d => some d
+  | p :: ps, d =>
+    match Dest.stateMachine env (some p) d with
+    | .ok _ d' => feedPdus env ps d'
+    | .error _ _ => none
+
+theorem feedPdus_append (env : Dest.Env) : ∀ (a b : List Pdu) (d : Dest.DestSt),
+    feedPdus env (a ++ b) d = (feedPdus env a d).bind (feedPdus env b) := by
+  intro a
+  induction a with
+  | nil => intro b d; simp [feedPdus]
+  | cons p ps ih =>
+    intro b d
+    simp only [List.cons_append, feedPdus]
+    cases Dest.stateMachine env (some p) d with
+    | ok _ d' => exact ih b d'
+    | error _ _ => rfl
+
+theorem rounds_add (env : Source.Env) : ∀ (a b : Nat) (s : Source.SrcSt),
+    Source.C07.rounds env (a + b) s =
+      match Source.C07.rounds env a s with
+      | none => none
+      | some (o1, s1) =>
+        match Source.C07.rounds env b s1 with
+        | none => none
+        | some (o2, s2) => some (o1 ++ o2, s2) := by
+  intro a
+  induction a with
+  | zero =>
+    intro b s
+    simp only [Nat.zero_add, Source.C07.rounds]
+    cases Source.C07.rounds env b s with
+    | none => rfl
+    | some x => simp
+  | succ a ih =>
+    intro b s
+    have : a + 1 + b = (a + b) + 1 := by omega
+    rw [this]
+    simp only [Source.C07.rounds]
+    cases hr : Source.C07.round env s with
+    | none => rfl
+    | some x =>
+      obtain ⟨o, s1⟩ := x
+      simp only
+      rw [ih b s1]
+      cases Source.C07.rounds env a s1 with
+      | none => rfl
+      | some y =>
+        obtain ⟨o1, s2⟩ := y
+        simp only
+        cases Source.C07.rounds env b s2 with
+        | none => rfl
+        | some z => simp [List.append_assoc]
+
+/-- the receiver consumes the sender's tiles: after the first `k` of them the destination file is
+the first `k·seg` bytes of the source file -/
+theorem receiver_takes_tiles (env : Dest.Env) (conf : Hdr) (rc : RemoteCfg) (t : Tid) (cks : Nat) (dst : String)
+    (cl : Bool) (F : List UInt8) (seg : Nat) (hseg : 0 < seg)
+    (ha : Admissible env rc { conf with dir := .toRecv }) :
+    ∀ (k : Nat) (d : Dest.DestSt), (k = 0 ∨ (k - 1) * seg < F.length) →
+      Receiving d dst [] rc t cks cl →
+      ∃ d', feedPdus env ((List.range k).map (Source.C07.tile conf F seg 0)) d = some d' ∧
+        Receiving d' dst (F.take (k * seg)) rc t cks cl ∧
+        (∀ q, q ≠ dst → d'.fs.get q = d.fs.get q) ∧
+        d'.inds.filter isFinished = d.inds.filter isFinished ∧ d'.p.conf = d.p.conf := by
+  intro k
+  induction k with
+  | zero => intro d _ hr; exact ⟨d, by simp [feedPdus], by simpa using hr, fun _ _ => rfl, rfl, rfl⟩
+  | succ k ih =>
+    intro d hk hr
+    have hklt : k * seg < F.length := by simpa using hk
+    have hk' : k = 0 ∨ (k - 1) * seg < F.length := by
+      by_cases h0 : k = 0
+      · exact Or.inl h0
+      · right
+        have : (k - 1) * seg ≤ k * seg := Nat.mul_le_mul_right _ (by omega)
+        omega
+    obtain ⟨d1, hf, hR, hother, hfin, hcf⟩ := ih d hk' hr
+    have hlen : (F.take (k * seg)).length = k * seg := by simp [List.length_take]; omega
+    have hdata : (F.drop (k * seg)).take seg ≠ [] := by
+      intro h
+      have := congrArg List.length h
+      simp [List.length_take, List.length_drop] at this
+      omega
+    have htile := C02_tile env d1 dst (F.take (k * seg)) ((F.drop (k * seg)).take seg) rc t cks
+      { conf with dir := .toRecv } cl hR ha hdata
+    rw [hlen] at htile
+    obtain ⟨hcall, hR'⟩ := htile
+    refine ⟨afterTile d1 dst (F.take (k * seg)) ((F.drop (k * seg)).take seg) env t, ?_, ?_, ?_, ?_, ?_⟩
+    · rw [List.range_succ, List.map_append, feedPdus_append, hf]
+      simp only [Option.bind, List.map_cons, List.map_nil, feedPdus, Source.C07.tile, Source.mkFd,
+        Nat.zero_add, hcall]
+    · have : F.take (k * seg) ++ (F.drop (k * seg)).take seg = F.take ((k + 1) * seg) := by
+        rw [Nat.add_mul, Nat.one_mul, List.take_add]
+      rw [← this]; exact hR'
+    · intro q hq
+      simp only [afterTile]
+      rw [Fs.C17.get_set_other _ _ _ _ hq]
+      exact hother q hq
+    · rw [← hfin]
+      simp only [afterTile]
+      split <;> simp [isFinished]
+    · rw [← hcf]; rfl
+
+open Source.C07 Source.C19 in
+/-- **End to end over a fault-free link, unacknowledged mode without closure: the two models
+composed.**  A sender whose put request for a non-empty file `F` was accepted, and an idle receiver
+that knows the sender; the sender is called and drained `k + 2` times (`k` = number of tiles), every
+PDU it emits is handed to the receiver in order, one `state_machine` call each.  Then no call of
+either handler raised, both handlers are idle, the destination file is byte-identical to the source
+file, every other path of the receiver's filestore and the whole filestore of the sender are
+untouched, neither side saw a fault callback, and the receiver issued exactly one
+Transaction-Finished indication (No error, Data complete, File retained).  For every file content
+and size, segment length, header configuration, CRC-32 / CRC-32C / modular checksum type.
+(C07 for the sender's stream, C09 for the independence of the checksum from the chunk length —
+the sender computes it with its segment length, the receiver with 4096 —, C17 for the filestore,
+`C02_metadata` / `receiver_takes_tiles` / `C02_eof` for the receiver.) -/
+theorem C02_end_to_end_unack (envS : Source.Env) (envD : Dest.Env) (s : Source.SrcSt) (d0 : Dest.DestSt)
+    (req : Source.PutReq) (rcS rcD : RemoteCfg) (src dst : String) (F crc : List UInt8) (seg k : Nat)
+    -- the sender: put request accepted, nothing done yet
+    (hst : s.state = .busy) (hstep : s.step = .IDLE) (hq : s.queue = []) (hreq : s.putReq = some req)
+    (hpmo : s.p.metadataOnly = false) (hsrc : req.src = some src) (hdst : req.dst = some dst)
+    (hfile : s.fs.get src = some (.file F)) (hF : F ≠ []) (hprog : s.p.progress = 0)
+    (hrc : s.p.remoteCfg = some rcS) (hbits : s.prov.bits = 8 ∨ s.prov.bits = 16 ∨ s.prov.bits = 32)
+    (hseg : Source.segLenOf rcS (startConf envS req rcS s (decide (F.length > 4294967295))) = some seg)
+    (hseg0 : 0 < seg) (hmode : s.p.conf.mode = .unack) (hcl : s.p.closure = false)
+    (hk : (k - 1) * seg < F.length ∧ F.length ≤ k * seg)
+    (hcks : Checksum.calcChecksum (Checksum.CksType.ofNat rcS.cks) F F.length seg = .ok crc)
+    (hnull : Checksum.CksType.ofNat rcS.cks ≠ .null) (hlen : crc.length = 4)
+    (hack : 0 < rcS.ackMs) (hchk : 0 < envS.cfg.chkMs)
+    -- the receiver: idle, knows the sender, the destination can be created
+    (ha : Admissible envD rcD { startConf envS req rcS s (decide (F.length > 4294967295)) with dir := .toRecv })
+    (hidle : d0.state = .idle) (hdq : d0.queue = []) (hdr : d0.numReady = 0) (hrej : d0.rejects = [])
+    (hfl : d0.flts = []) (hnd : Fs.isDir d0.fs dst = false)
+    (hok : (∃ old, d0.fs.get dst = some (.file old)) ∨
+           (Fs.exists' d0.fs dst = false ∧ Fs.parentIsDir d0.fs dst = true)) :
+    ∃ pdus s' d',
+      rounds envS (1 + k + 1) s = some (pdus, s') ∧ feedPdus envD pdus d0 = some d' ∧
+      s'.state = .idle ∧ d'.state = .idle ∧ d'.queue = [] ∧
+      d'.fs.get dst = some (.file F) ∧ (∀ q, q ≠ dst → d'.fs.get q = d0.fs.get q) ∧ s'.fs = s.fs ∧
+      d'.flts = [] ∧ s'.flts = s.flts ∧
+      d'.inds.filter isFinished = d0.inds.filter isFinished ++
+        (if envD.cfg.indFinished
+          then [.finished (some ⟨(startConf envS req rcS s (decide (F.length > 4294967295))).src,
+                                 (startConf envS req rcS s (decide (F.length > 4294967295))).seq⟩)
+                  ⟨ccNoError, dcComplete, fsRetained, none⟩] else []) := by
+  have hk1 : 1 ≤ k := by
+    rcases Nat.eq_zero_or_pos k with h0 | h0
+    · subst h0
+      have : F.length = 0 := by have := hk.2; omega
+      exact absurd (List.eq_nil_of_length_eq_zero this) hF
+    · exact h0
+  -- 1. the sender's first call: Metadata
+  obtain ⟨hcall1, hS1⟩ := C07_metadata_call envS s req rcS src dst F seg hst hstep hq hreq hpmo hsrc hdst hfile hF
+    hprog hrc hbits hseg hseg0
+  -- 2. k rounds: the tiles
+  obtain ⟨s2, hr2, hp2, hc2, hsg2, hst2, hS2, hFr2⟩ := C07_stream_tiles envS req src F k _ hS1
+    (Or.inr (by simp only [Source.C07.drained, afterMetadata, hprog, Nat.zero_add]; exact hk.1))
+  have hstep2 : s2.step = .SENDING_FILE_DATA := hst2.resolve_left (by omega)
+  have hprog2 : s2.p.progress = s2.p.fileSize := by
+    rw [hp2, hS2.hsize]; simp only [Source.C07.drained, afterMetadata, hprog, Nat.zero_add]
+    exact Nat.min_eq_left hk.2
+  simp only [Frame] at hFr2
+  obtain ⟨f1, f2, f3, f4, f5, f6, f7, f8, f9, f10, f11, f12, f13, f14⟩ := hFr2
+  -- 3. the EOF call
+  obtain ⟨s3, hcall3, hq3, hinds3, hidle3, _, hfs3, hflt3⟩ := C07_eof_call envS s2 req rcS src F crc
+    ⟨envS.cfg.entityId, ⟨s.prov.next, s.prov.bits / 8⟩⟩ hS2.hbusy hstep2 hS2.hqueue hS2.hreq hS2.hsrc hS2.hnotMo
+    hS2.hfile hS2.hsize hprog2 (by rw [f1]; simp [Source.C07.drained, afterMetadata, hrc]) (by rw [f2]; simp [Source.C07.drained, afterMetadata])
+    (by rw [hsg2]; simpa [Source.C07.drained, afterMetadata] using hcks) hnull hlen hack hchk
+  have hmode2 : s2.p.conf.mode = .unack := by
+    rw [hc2]; simp [Source.C07.drained, afterMetadata, startConf, hmode]
+  have hcl2 : s2.p.closure = false := by rw [f3]; simp [Source.C07.drained, afterMetadata, hcl]
+  obtain ⟨hidle3a, _⟩ := hidle3 hmode2 hcl2
+  -- the sender's run
+  have hrun : rounds envS (1 + k + 1) s = some
+      ((afterMetadata envS s req rcS src dst F seg).queue ++
+        (List.range k).map (tile (Source.C07.drained (afterMetadata envS s req rcS src dst F seg)).p.conf F
+          (Source.C07.drained (afterMetadata envS s req rcS src dst F seg)).p.segmentLen
+          (Source.C07.drained (afterMetadata envS s req rcS src dst F seg)).p.progress) ++ s3.queue,
+       Source.C07.drained s3) := by
+    rw [rounds_add envS (1 + k) 1 s, rounds_add envS 1 k s]
+    simp [rounds, round, hcall1, hr2, hcall3]
+  -- 4. the receiver
+  obtain ⟨hmd, hR1⟩ := C02_metadata envD d0 _ rcD rcS.cks F.length src dst (some (req.msgs.getD [])) false ha hidle hdq
+    hdr hrej hfl hnd hok
+  obtain ⟨d2, hfeed2, hR2, hother2, hfin2, _⟩ := receiver_takes_tiles envD
+    (startConf envS req rcS s (decide (F.length > 4294967295))) rcD _ rcS.cks dst false F seg hseg0 ha k _
+    (Or.inr hk.1) hR1
+  rw [List.take_of_length_le hk.2] at hR2
+  have hver : rcS.cks = 15 ∨ Fs.calcChecksum d2.fs (Checksum.CksType.ofNat rcS.cks) dst F.length 4096 = .ok crc := by
+    right
+    have := Checksum.C09.C09_chunk_length_irrelevant (Checksum.CksType.ofNat rcS.cks) F F.length seg 4096
+      (by omega) (by omega)
+    simp [Fs.calcChecksum, hnull, hR2.hfile, ← this, hcks]
+  have heof := C02_eof envD d2 dst F crc rcD _ rcS.cks _ hR2 ha hver
+  refine ⟨_, Source.C07.drained s3, afterEof envD d2 ⟨(startConf envS req rcS s (decide (F.length > 4294967295))).src, (startConf envS req rcS s (decide (F.length > 4294967295))).seq⟩, hrun, ?_⟩
+  refine ⟨?_, ?_, ?_, ?_, ?_, ?_, ?_, ?_, ?_, ?_⟩
+  · -- feeding exactly these PDUs
+    have hmdq : (afterMetadata envS s req rcS src dst F seg).queue =
+        [Pdu.md { startConf envS req rcS s (decide (F.length > 4294967295)) with dir := .toRecv } false rcS.cks
+          F.length (some src) (some dst) (some (req.msgs.getD []))] := by
+      simp [afterMetadata, Source.mkMd, hcl]
+    have htl : (List.range k).map (tile (Source.C07.drained (afterMetadata envS s req rcS src dst F seg)).p.conf F
+          (Source.C07.drained (afterMetadata envS s req rcS src dst F seg)).p.segmentLen
+          (Source.C07.drained (afterMetadata envS s req rcS src dst F seg)).p.progress) =
+        (List.range k).map (tile (startConf envS req rcS s (decide (F.length > 4294967295))) F seg 0) := by
+      simp [Source.C07.drained, afterMetadata, hprog]
+    have heq : s3.queue = [Pdu.eof { startConf envS req rcS s (decide (F.length > 4294967295)) with dir := .toRecv }
+        ccNoError crc F.length none] := by
+      rw [hq3, hc2]; simp [Source.mkEof, Source.C07.drained, afterMetadata]
+    rw [hmdq, htl, heq, feedPdus_append, feedPdus_append]
+    simp only [feedPdus, hmd, Option.bind, hfeed2, heof]
+  · simpa [Source.C07.drained] using hidle3a
+  · rfl
+  · simp [afterEof, hR2.hqueue]
+  · simp [afterEof, hR2.hfile]
+  · intro q hq'
+    simp only [afterEof]
+    rw [hother2 q hq']
+    simp [afterMd, Fs.C17.get_set_other _ _ _ _ hq']
+  · simp [Source.C07.drained, hfs3, f6, afterMetadata]
+  · simp [afterEof, hR2.hflts]
+  · simp [Source.C07.drained, hflt3, f5, afterMetadata]
+  · simp only [afterEof, List.filter_append, hfin2]
+    have h1 : (afterMd envD d0 { startConf envS req rcS s (decide (F.length > 4294967295)) with dir := .toRecv }
+        rcD rcS.cks F.length src dst (some (req.msgs.getD [])) false).inds.filter isFinished =
+        d0.inds.filter isFinished := by simp [afterMd, isFinished]
+    rw [h1]
+    cases envD.cfg.indEofRecv <;> cases envD.cfg.indFinished <;> simp [isFinished]
 
 end Cfdp.C02
